@@ -20,7 +20,7 @@ MODULES = {
     'Wavefront': [
         dict(name='wf_ref_sphere', file=WF, cls='Wavefront', func='_get_reference_sphere', types=dict(_REC), **_K),
         dict(name='wf_image_to_xp', file=WF, cls='Wavefront', func='_opd_image_to_xp', types=dict(_REC), **_K),
-        dict(name='wf_path_length', file=WF, cls='Wavefront', func='_get_path_length', types=dict(_REC),
+        dict(name='wf_get_path_length', file=WF, cls='Wavefront', func='_get_path_length', types=dict(_REC),
              calls={'self._opd_image_to_xp': 'wf_image_to_xp'}, **_K),
         # _correct_tilt as called for the chief ray (x=0, y=0 given) ...
         dict(name='wf_tilt_xy', file=WF, cls='Wavefront', func='_correct_tilt', types=dict(_TILT_T),
@@ -31,7 +31,7 @@ MODULES = {
         # _generate_field_data: everything after the trace (the trace itself is Model/Trace.v)
         dict(name='wf_field_data', file=WF, cls='Wavefront', func='_generate_field_data',
              types=dict(_REC, **_TILT_T), ignore_calls=['self.optic.trace'],
-             calls={'self._get_path_length': 'wf_path_length', 'self._correct_tilt': 'wf_tilt_dist'},
+             calls={'self._get_path_length': 'wf_get_path_length', 'self._correct_tilt': 'wf_tilt_dist'},
              opaque_calls=dict(_TILT_O), **_K),
         dict(name='wf_opd_rms', file=WF, cls='OPD', func='rms', types={'self.data': 'wfdata'}, **_K),
         dict(name='wf_rms_vs_field', file=RV, cls='RmsWavefrontErrorVsField', func='_rms_wavefront_error',
